@@ -47,7 +47,9 @@ INFO = dict(
               "+ class table, two method tables and gate table regenerated from the live classes with `decide` obligations "
               "+ model/implementation correspondence on all class pairs, cross-dimension pairs, nested and "
               "self-containing chains, aliased operands, unusual dtypes / memory layouts and random programs",
-    level_text="Theorems, for every dimension and all parameter values: composition law for compose_before/after "
+    level_text="Theorems over the model, the algebra for every dimension and all parameter values (as CODED the cross-class "
+               "branches of the ladder call checked constructors that exist in 2-D / 3-D only: `ladder_ctor_justified`, "
+               "`ladder_ctor_refuses_other_dims`): composition law for compose_before/after "
                "(every pair of the 12 family classes; projective Homogeneous wherever denominators are non-zero; "
                "chains, WithDims - dimension-changing included - and opaque transforms by structural denotation), "
                "result is a single non-alignment family member whose class invariant really holds and which is "
@@ -57,7 +59,11 @@ INFO = dict(
                "broadcasting and cycling included) and proved honest for every class (quaternion formula included), "
                "in-place composition on a chain obeys the law exactly when the operand does not "
                "contain the receiver and otherwise leaves a chain without denotation, chains are not flattened, "
-               "non-in-place calls leave every existing store cell unchanged, every object keeps kind, dimension and "
+               "in the model a non-in-place call only appends a cell (`compose_frame`, `prog_frame`: true by construction of "
+               "`step`, for every class table - a statement about the model's shape, not about menpo; that menpo's "
+               "non-in-place calls leave their operands as they were is decided on every case by the oracle's digest of "
+               "the state the property names: class, h_matrix bytes, alignment source / target points, chain member "
+               "identities), every object keeps kind, dimension and "
                "class and every non-receiver stays the same cell along every finite program (induction over "
                "programs), a dimension calculus is sound for apply and total on affine chains, Affine.decompose "
                "recomposes and returns honest pieces under the SVD contract (with the determinant bookkeeping that "
@@ -91,7 +97,9 @@ INFO = dict(
                "(`ladder_int`, `ladder_cls`, `stepT_typed`, `prog_dtype_exact`).",
     level_note="Trusted: Lean kernel; axioms propext/Classical.choice/Quot.sound; harness/extract_c03.py, this "
                "harness and the driver's parser; the translators harness/py2lean.py / py2lean2.py with the rule tables of "
-               "harness/trans_c03.py; numpy's dot/svd (the SVD contract L = U diag(s) V, U and V "
+               "harness/trans_c03.py and the normaliser harness/py2lean_norm.py (helper inlining hoists a helper's body to "
+               "statement level: sound for the pure helpers with simple arguments it accepts; a helper call inside an "
+               "`and` / `or` / conditional operand would be evaluated early - no such call exists in the anchored code); numpy's dot/svd (the SVD contract L = U diag(s) V, U and V "
                "orthogonal, s > 0 is checked numerically on every decomposition case); float rounding is outside the "
                "model (exact rationals; comparison 1e-9 relative plus an error bound from the product of operand "
                "norms).",
@@ -104,7 +112,16 @@ INFO = dict(
          "distinct = distinct (dimension, operation, operand kinds, operand parameters and previous lives); "
          "non-trivial = both operands are not identity maps (by construction of the generators, except the "
          "statements of the identity-operand battery, which are counted as trivial)",
-    partial=["Affine.decompose: numpy's SVD is a contract parameter (L = U diag(s) V with U, V orthogonal and s > 0, "
+    partial=["operands intact / aliasing: the translation is VALUE-LEVEL - `.copy()`, `copy=` flags, in-place mutation "
+             "versus rebinding and object identity are invisible to it (dropping `self.copy()` in the ladder gives a "
+             "byte-identical translation, so `genLadder_eq` still holds); `compose_frame` / `prog_frame` restate that the "
+             "model's `step` appends.  The clause 'a and b themselves are unchanged' is therefore decided by the "
+             "oracle's digests and identity checks on every sampled case, not by a theorem about the code",
+             "honesty of in-place receivers (`C03/inplace.honest`) is judged although the text names 'the result': a "
+             "dishonest receiver makes the next non-in-place result dishonest (`coded_inplace_breaks_honesty`, "
+             "`coded_program_breaks_law`), so the clause over all finite sequences of calls implies it; DESIGN section 6 "
+             "(written before fix b1ffb28) still says 'non-in-place results only'",
+             "Affine.decompose: numpy's SVD is a contract parameter (L = U diag(s) V with U, V orthogonal and s > 0, "
              "checked numerically per case - singular values are irrational); the Scale factory's np.allclose decision "
              "is a Boolean input of the model: recomposition is proved when it says 'uniform' only for equal factors "
              "(decompose_near_tie_witness shows the hypothesis cannot be dropped) and cases within 1e-3..1e-9 of "
@@ -127,7 +144,17 @@ INFO = dict(
              "a chain appended to something that contains it: the model says 'no denotation at any fuel', the "
              "implementation raises RecursionError on apply; tied by the correspondence, not judged by the oracle "
              "(the property does not speak about it)"],
-    assumptions=["operands are honest and invertible when created (constructor arguments really are rotations, "
+    assumptions=["the translated bodies drop `self._sync_target_from_state()` (rule: the receiver is unchanged): its body "
+                 "lives in menpo/base.py (not anchored, not a column of the method table) and is assumed to write the "
+                 "alignment's target only; a version that refits the matrix is seen by the oracle (law / honesty of "
+                 "in-place calls on alignments), not by an obligation",
+                 "class, method and gate tables are read from the classes' MROs / `__dict__`s and from sample 2-D and 3-D "
+                 "instances: gates that depend on the instance's state are outside",
+                 "totalisations of the numpy vocabulary (Core/C03Src.lean): `np.eye(n)` for n < 0 is the empty array "
+                 "(numpy raises), a subscript beyond the shape reads the generating function (numpy raises IndexError); "
+                 "neither is reachable from the translated bodies (sizes are shape + 1, subscripts are guarded by "
+                 "length tests)",
+                 "operands are honest and invertible when created (constructor arguments really are rotations, "
                  "non-zero scales, ...; checked on every atom)",
                  "probe points at which a projective Homogeneous operand has a denominator below 1e-3 are skipped",
                  "WithDims arguments are those for which x[:, dims] is a point set again: an index list / tuple / "
@@ -677,8 +704,30 @@ def dval(v, depth=0):
 
 
 def digest(o):
-    """state of one object: family = class + matrix (+ alignment source/target), chain = identities of the
-    members in order (and of the list object), anything else = its attribute values"""
+    """the state of one object THE PROPERTY NAMES ("a and b themselves are unchanged": the map an operand denotes and
+    what it is): a family object = class + h_matrix (bytes, dtype, shape) + for alignments the source / target points;
+    a chain = the identities of its members in order; WithDims = its dims; thin-plate splines / piecewise affine =
+    class + source / target points.  Private attributes (a memo, a lazily cached value) are NOT part of it: a correct
+    implementation may cache on an operand (`private_digest` notes such changes without judging them)."""
+    if is_chain(o):
+        return ("chain", tuple(id(t) for t in o.transforms))
+    out = [type(o).__name__]
+    if is_family(o):
+        out.append(dval(o.h_matrix))
+    if is_withdims(o):
+        out.append(repr(o.dims))
+    for name in ("source", "target"):
+        try:
+            v = getattr(o, name, None)
+        except Exception:
+            v = None
+        if v is not None and hasattr(v, "points"):
+            out.append((name, dval(v)))
+    return tuple(out)
+
+
+def private_digest(o):
+    """every attribute of the object (what `digest` was before the audit): used for a counted note only"""
     if is_chain(o):
         return ("chain", tuple(id(t) for t in o.transforms))
     return (type(o).__name__, tuple((k, dval(v)) for k, v in sorted(o.__dict__.items())))
@@ -705,14 +754,14 @@ def is_projective(o):
 
 
 def seq_apply(first, second, X):
-    """what the law prescribes: (`second.apply(first.apply(X'))`, X', smallest projective denominator) where X'
+    """what the law prescribes: (`second.apply(first.apply(X'))`, X', per-row smallest projective denominator) where X'
     are the rows of X at which every projective denominator along the way is >= 1e-3 (the denominators are
     found by walking the leaves); or (name of the exception type raised, None, None)"""
     import numpy as np
     try:
         Y = np.asarray(X, dtype=float)
         ok = np.ones(Y.shape[0], dtype=bool)
-        wmin = 1.0
+        wrow = np.ones(Y.shape[0])
         ls = leaves(first) + leaves(second)
         if any(is_projective(t) for t in ls):
             for t in ls:
@@ -720,17 +769,35 @@ def seq_apply(first, second, X):
                     hy = np.hstack([Y, np.ones([Y.shape[0], 1])]).dot(t.h_matrix.T)
                     w = np.abs(hy[:, -1])
                     ok &= w >= 1e-3
-                    if ok.any():
-                        wmin = min(wmin, float(w[ok].min()))
+                    wrow = np.minimum(wrow, np.where(ok, w, 1.0))
                     Y = Y.copy()
                     Y[~ok] = 0.0
                 Y = t.apply(Y)
         Xok = np.asarray(X, dtype=float)[ok]
         if Xok.shape[0] == 0:
-            return None, Xok, wmin
-        return second.apply(first.apply(Xok)), Xok, wmin
+            return None, Xok, wrow[ok]
+        return second.apply(first.apply(Xok)), Xok, wrow[ok]
     except Exception as e:  # e.g. TriangleContainmentError of a piecewise affine member
         return type(e).__name__, None, None
+
+
+def close_rows(got, exp, mag, wrow):
+    """`close_arrays` row by row: the tolerance of a probe is loosened by 1 / w^2 for ITS OWN smallest projective
+    denominator w only (a near-singular probe does not loosen the others); -> index of the first bad row or None"""
+    import numpy as np
+    got, exp = np.asarray(got, dtype=float), np.asarray(exp, dtype=float)
+    if got.shape != exp.shape:
+        return 0
+    if got.size == 0:
+        return None
+    if not (np.isfinite(got).all() and np.isfinite(exp).all()):
+        return 0
+    scale = max(float(np.abs(got).max()), float(np.abs(exp).max()))
+    base = 1e-9 * (1.0 + scale) + 1e-12 * mag
+    for j in range(got.shape[0]):
+        if float(np.abs(got[j] - exp[j]).max()) > base / min(1.0, float(wrow[j])) ** 2:
+            return j
+    return None
 
 
 def honest(name, M, err=0.0):
@@ -854,6 +921,7 @@ def exec_stmt(ctx, w, stmt, X, rp, site_prefix="C03"):
     exp, Xok, wmin = seq_apply(first, second, Xp)
     typed = out_dim(second, out_dim(first, in_dim(first))) is not None
     before = [digest(o) for o in w.objs]
+    before_private = [private_digest(o) for o in w.objs]
     fam_pair = is_family(a) and is_family(b)
     honest_before = ((not is_family(a) or honest(ka, a.h_matrix, 1e-12 * w.mag[ia]))
                      and (not is_family(b) or honest(kb, b.h_matrix, 1e-12 * w.mag[ib])))
@@ -864,6 +932,8 @@ def exec_stmt(ctx, w, stmt, X, rp, site_prefix="C03"):
         res, err = None, error_kind(e)
     after = [digest(o) for o in w.objs]
     changed = [i for i in range(len(before)) if before[i] != after[i]]
+    if [private_digest(o) for o in w.objs] != before_private and not changed and (not inplace or err is not None):
+        ctx.count("note:private-attribute-of-an-operand-changed (not judged: the property names the matrix)")
 
     # failures that involve an operand an earlier accepted in-place call already left dishonest get their own
     # pattern, so that they can be told apart from failures on honest operands
@@ -876,8 +946,12 @@ def exec_stmt(ctx, w, stmt, X, rp, site_prefix="C03"):
                 got = "ok"
             except Exception as e:
                 got = type(e).__name__
-            ctx.check(got == exp, site, "exception-differs",
-                      "sequential application raises %s, the composite gives %s" % (exp, got), rp)
+            # the sequential application is undefined on these points: the composite must not invent a value; WHICH
+            # exception it raises is not the property's business (a chain may validate dimensions itself)
+            ctx.check(got != "ok", site, "composite-defined-where-sequential-raises",
+                      "sequential application raises %s, the composite returns a value" % exp, rp)
+            if got != exp:
+                ctx.count("note:exception-type-differs (not judged)")
             return
         if exp is None:
             ctx.count("skipped:no-well-conditioned-probe")
@@ -887,9 +961,8 @@ def exec_stmt(ctx, w, stmt, X, rp, site_prefix="C03"):
         except Exception as e:
             ctx.fail(site, "composite-raises", "applying the composite raised %s" % type(e).__name__, rp)
             return
-        good = close_arrays(got, exp, mag * (1.0 + float(np.abs(Xp).max())), 1.0 / min(1.0, wmin) ** 2)
-        if not good:
-            j = int(np.argmax(np.abs(got - exp).max(axis=1))) if got.shape == exp.shape else 0
+        j = close_rows(got, exp, mag * (1.0 + float(np.abs(Xp).max())), wmin)
+        if j is not None:
             ctx.fail(site, "map-differs" + sfx,
                      "%s: composite maps %s to %s, the law prescribes %s" % (
                          sig, Xok[j].tolist(), got[j].tolist(), exp[j].tolist()),
@@ -948,7 +1021,8 @@ def exec_stmt(ctx, w, stmt, X, rp, site_prefix="C03"):
     if err is not None:
         ctx.fail("C03/inplace.raises", err, "%s raised %s" % (sig, err), rp)
         return ("e", err)
-    ctx.check(res is None or res is a, "C03/inplace.returns", "returns-object", "%s returned %r" % (sig, type(res)), rp)
+    if not (res is None or res is a):
+        ctx.count("note:in-place-call-returns-an-object (return convention: not judged)")
     other = [i for i in changed if i != ia]
     ctx.check(not other, "C03/inplace.operand-intact", "object-changed",
               "%s changed object(s) %r besides the receiver %d" % (sig, other, ia), dict(rp, changed=other))
@@ -1021,9 +1095,8 @@ def exec_fromvector(ctx, w, stmt, X, rp):
     elif exp is not None:
         try:
             got = np.asarray(a.apply(Xok))
-            good = close_arrays(got, exp, mag * (1.0 + float(np.abs(Xp).max())), 1.0 / min(1.0, wmin) ** 2)
-            if not good:
-                j = int(np.argmax(np.abs(got - exp).max(axis=1))) if got.shape == exp.shape else 0
+            j = close_rows(got, exp, mag * (1.0 + float(np.abs(Xp).max())), wmin)
+            if j is not None:
                 ctx.fail("C03/inplace.law", "map-differs", "%s: receiver maps %s to %s, the law prescribes %s" % (
                     sig, Xok[j].tolist(), got[j].tolist(), exp[j].tolist()),
                     dict(rp, probe=Xok[j].tolist(), observed=got[j].tolist(), required=exp[j].tolist()))
@@ -1171,7 +1244,11 @@ def run_program(ctx, recipes, stmts, cid, table_wire, pending, what, aux=None):
         w.add_atom(r)
     for i, o in enumerate(w.objs):
         if is_family(o) and not honest(kind_of(o), o.h_matrix, 1e-12 * w.mag[i]):
+            # a dishonest atom shrinks the coverage silently: on the unchanged tree the generators never build one, so
+            # this is an observation that breaks the tie (directed search), not a quiet counter
             ctx.count("generator:dishonest-atom-skipped")
+            ctx.mismatch("generator.atom-honest", "the generator's %s atom is not honestly of its class: %s" % (
+                kind_of(o), o.h_matrix.tolist()), {"atoms": recipes, "object": i, "what": what})
             return None
     init_cells = [w.wire_cell(i) for i in range(len(w.objs))]
     init_tags = [dtype_tag(o) for o in w.objs]
@@ -1774,10 +1851,18 @@ def decompose_cases(ctx, n, lines, expect):
             history = [rng.choice(["decompose", "str"]), rng.choice(["compose_before_inplace", "compose_after_inplace"]), tv]
             try:
                 o.decompose() if history[0] == "decompose" else str(o)
-                getattr(o, history[1])(Translation(np.array(tv)))
             except Exception as e:
-                ctx.fail(site, "history-raises", "%s then %s raised %s" % (history[0], history[1], type(e).__name__),
-                         {"d": d, "atom": r, "history": history})
+                if history[0] == "decompose":       # "the decomposition of an affine transform recomposes to it": it exists
+                    ctx.fail(site, "raises", "decompose of %s raised %s" % (kind, type(e).__name__),
+                             {"d": d, "atom": r, "history": history})
+                else:                               # printing is not a clause of the property
+                    ctx.count("note:str-raises (not judged)")
+                continue
+            try:
+                getattr(o, history[1])(Translation(np.array(tv)))
+            except Exception as e:                  # an affine-family object composes in place with a Translation
+                ctx.fail("C03/inplace.raises", error_kind(e), "%s(%s) raised %s after %s" % (
+                    history[1], "Translation", type(e).__name__, history[0]), {"d": d, "atom": r, "history": history})
                 continue
             py += "t.%s\nt.%s(Translation(np.array(%r)))\n" % ("decompose()" if history[0] == "decompose" else "__str__()",
                                                               history[1], tv)
@@ -1810,10 +1895,17 @@ def decompose_cases(ctx, n, lines, expect):
                       kind, folded.h_matrix.tolist() if is_family(folded) else kind_of(folded)), rp)
         ctx.check(digest(o) == before, site, "receiver-changed", "decompose() changed the %s" % kind, rp)
         ctx.check(all(p is not o for p in pieces), site, "aliases-receiver", "decompose() returned the object itself", rp)
+        # honesty of the PIECES is not a clause of the text ("the decomposition ... recomposes to it"; honesty is claimed
+        # for the result of a composition - which the fold above is, and `folded` is judged like every composite below).
+        # A dishonest piece is therefore an observation that sends the check into the directed search, not a failure.
         for p in pieces:
-            ctx.check(is_family(p) and honest(kind_of(p), p.h_matrix, 1e-12 * mag), site + ".honest", "piece=" + kind_of(p),
-                      "decompose() of a %s returned a %s whose matrix is not one: %s" % (kind, kind_of(p), p.h_matrix.tolist()),
-                      dict(rp, piece=kind_of(p), piece_matrix=p.h_matrix.tolist()))
+            if not (is_family(p) and honest(kind_of(p), p.h_matrix, 1e-12 * mag)):
+                ctx.mismatch("decompose.piece-honest", "decompose() of a %s returned a %s whose matrix is not one: %s" % (
+                    kind, kind_of(p), p.h_matrix.tolist()), dict(rp, piece=kind_of(p), piece_matrix=p.h_matrix.tolist()))
+        if is_family(folded) and all(is_family(p) and honest(kind_of(p), p.h_matrix, 1e-12 * mag) for p in pieces):
+            ctx.check(honest(kind_of(folded), folded.h_matrix, 1e-12 * mag), "C03/compose.honest", "class=" + kind_of(folded),
+                      "the pieces of decompose() of a %s composed with compose_before report %s but the matrix is not one"
+                      % (kind, kind_of(folded)), rp)
         ctx.case(("decompose", d, kind, json.dumps(history), json.dumps(r, sort_keys=True)), nontrivial=True,
                  sample={"d": d, "decompose": kind, "pieces": [kind_of(p) for p in pieces], "history": history})
         ctx.count("decompose:" + kind)
@@ -2188,6 +2280,8 @@ def run(ctx):
     warnings.filterwarnings("ignore")
     common.prepare_lean(ctx, PROP, IMPORTS, THEOREMS, generated=generated)
     ctx.trusted += ["harness/extract_c03.py (class-table and method-table extraction from live classes)",
+                    "harness/py2lean.py, harness/py2lean2.py, harness/py2lean_norm.py and the rule tables of "
+                    "harness/trans_c03.py (source-to-Lean translation; value-level: copies and aliasing are not seen)",
                     "numpy dot / svd (contract L = U diag(s) V, U and V orthogonal, s > 0 checked numerically per "
                     "decomposition case)"]
     rows2, rows3 = ctx._c03_rows
